@@ -99,6 +99,13 @@ package parser
 //@ func (*PacketDslVisitorImpl).VisitPacketDefinition
 //@   ensures typeis(result, *model.Packet) && unbox(result, *model.Packet) != nil && model.fieldsNonNil(unbox(result, *model.Packet))
 //@   ensures [C08:names-are-token-texts] istokentext(unbox(result, *model.Packet).Name)
+//@   ensures [C04:link] unbox(result, *model.Packet).LengthField != nil ==> typeis(unbox(result, *model.Packet).LengthField.Attr, *model.LengthFieldAttribute) && forall(i, 0, len(unbox(result, *model.Packet).Fields), unbox(result, *model.Packet).Fields[i].Name == unbox(unbox(result, *model.Packet).LengthField.Attr, *model.LengthFieldAttribute).TragetField.Name ==> typeis(unbox(result, *model.Packet).Fields[i].LenAttr, *model.LengthFieldAttribute))
+//@   loop 0 invariant forallkey(k, fieldMap, fieldMap[k] != nil && fieldMap[k].Name == k)
+//@   loop 0 invariant forall(i, 0, len(fields), typeis(fields[i].Attr, *model.LengthFieldAttribute) ==> fields[i] == lengthField)
+//@   loop 1 invariant forallkey(k, fieldMap, fieldMap[k] != nil && fieldMap[k].Name == k)
+//@   loop 1 invariant forall(i, 0, len(fields), typeis(fields[i].Attr, *model.LengthFieldAttribute) ==> fields[i] == lengthField)
+//@   loop 1 invariant lengthField != nil ==> unbox(lengthField.Attr, *model.LengthFieldAttribute).TragetField.Name == entry(unbox(lengthField.Attr, *model.LengthFieldAttribute).TragetField.Name)
+//@   loop 1 invariant lengthField != nil ==> forall(i, 0, rangeindex + 1, fields[i].Name == unbox(lengthField.Attr, *model.LengthFieldAttribute).TragetField.Name ==> typeis(fields[i].LenAttr, *model.LengthFieldAttribute))
 //@   ensures [C12:D7-field-names-distinct] forall(i, 0, len(unbox(result, *model.Packet).Fields), forall(j, 0, i, unbox(result, *model.Packet).Fields[i].Name != unbox(result, *model.Packet).Fields[j].Name))
 //@   loop 0 invariant forall(i, 0, len(fields), haskey(fieldMap, fields[i].Name))
 //@   loop 0 invariant forall(i, 0, len(fields), forall(j, 0, i, fields[i].Name != fields[j].Name))
